@@ -16,8 +16,9 @@ ASSUMPTIONS = [
     "implementation by the oracle only (the clipping to the used area is openpyxl/excelwrapper code that "
     "is not modelled)",
     "CSE array formulas, tables / structured references, formulas returning a reference (OFFSET, INDIRECT) and "
-    "the reference cell of an unbounded range and range operations (intersection, computed corners) are outside "
-    "the machine: the streams cse-order, table-order, reference-order, cse-range, range-ops and "
+    "range operations (intersection, computed corners) are outside the machine (the reference cell of a "
+    "whole-column range is inside it in the order-colb stream only: a node of range kind, alias of the bounded "
+    "range node): the streams cse-order, table-order, reference-order, cse-range, range-ops and "
     "unbounded-history are judged on the implementation alone, the reference "
     "being the value of the cell evaluated alone by a fresh compiler (from-scratch compile after writes)",
 ]
